@@ -1,4 +1,4 @@
 f=$1; n=$2
-d=/verif/build/goal; mkdir -p $d; b=$(basename $f)
-head -n $n /verif/coq/$f > $d/$b; printf '\nShow.\n' >> $d/$b
-cd /verif/coq && timeout 120 coqc -Q theories VD -o $d/${b}o $d/$b 2>&1 | grep -v "Warning\|^File.*characters 2-" | tail -${3:-40}
+V=$(cd "$(dirname "$0")/.." && pwd); d=$V/build/goal; mkdir -p $d; b=$(basename $f)
+head -n $n $V/coq/$f > $d/$b; printf '\nShow.\n' >> $d/$b
+cd $V/coq && timeout 120 coqc -Q theories VD -o $d/${b}o $d/$b 2>&1 | grep -v "Warning\|^File.*characters 2-" | tail -${3:-40}
